@@ -530,6 +530,45 @@ fn inotify_works(base: &Path) -> bool {
     })
 }
 
+/// A real watcher built with the public `FsWatcherBuilder` on a root that is reached through a symbolic link
+/// (the root path as given is what `notify` reports paths under): entries under it must be named as usual.
+/// The events are read back through the hook channel; a sentinel file created last bounds the wait.
+fn linked_root(base: &Path, out: &mut Outcome) {
+    let real = base.join("lr_real");
+    let link = base.join("lr_link");
+    if std::fs::create_dir_all(real.join("s")).is_err() || std::fs::write(real.join("s").join("a.txt"), "0").is_err() || std::os::unix::fs::symlink(&real, &link).is_err() {
+        return;
+    }
+    let (tx, rx) = verif::event_channel();
+    let Ok(mut b) = assets_manager::hot_reloading::FsWatcherBuilder::new() else { return };
+    if b.watch(link.clone()).is_err() {
+        return;
+    }
+    b.build(tx);
+    std::thread::sleep(Duration::from_millis(30));
+    let _ = std::fs::write(link.join("s").join("a.txt"), "1");
+    let _ = std::fs::write(link.join("top.txt"), "t");
+    let _ = std::fs::write(link.join("zz_end.txt"), "e");
+    let mut seen: BTreeSet<(bool, String, String)> = BTreeSet::new();
+    let done = wait_until(
+        || {
+            seen.extend(rx.recv_all().iter().map(entry_key));
+            seen.contains(&(false, "zz_end".to_string(), "txt".to_string()))
+        },
+        30,
+    );
+    let need = [(false, "s.a".to_string(), "txt".to_string()), (false, "top".to_string(), "txt".to_string()), (true, String::new(), String::new())];
+    let missing: Vec<_> = need.iter().filter(|n| !seen.contains(*n)).collect();
+    if !done || !missing.is_empty() {
+        out.fail(
+            "real-linked-root",
+            format!("a watcher built with FsWatcherBuilder on {link:?} (a symbolic link to {real:?}; filesystem notifications work here): after modifying s/a.txt and creating top.txt and zz_end.txt under it, the events are {seen:?}; missing {missing:?}"),
+        );
+    } else {
+        out.label("real-root-through-symlink");
+    }
+}
+
 fn disk_listing(dir: &Path) -> Vec<String> {
     // stems of the files with extension txt or x directly inside
     let mut v: BTreeSet<String> = BTreeSet::new();
@@ -713,7 +752,7 @@ impl Prop for C12 {
          (notification kind: create file/folder/any, modify data/metadata/any, rename from/to/both, remove file/folder, any, access, other) x (path spelling: plain, with '.', with 'sibling/..'); removals are handled with the object already gone. \
          Each probe is fed to the crate's real notify handler (hook) and the events it sends are compared with: per root containing the path, the entry whose path_of is that path (right id, extension, kind; for a vanished extension-less path without hint either kind) \
          plus, for create/rename/remove, its parent directory (the root being Directory(\"\")); nothing for access/other/outside/inexpressible paths, and a later event is still delivered. Round trip id_of_path(path_of(e)) == e for every entry, path_of injective. \
-         Enumerated part: every entry of a fixed tree x every notification kind. Real part: generated write/delete/rename/mkdir histories on a temp dir watched by a real AssetCache<FileSystem>; after each step (sentinel file touched last) every directory handle equals the disk and a two-extension asset equals a fresh load; in half of them the very first activity under the freshly built watcher is a single-notification operation (create an empty file / delete). \
+         Enumerated part: every entry of a fixed tree x every notification kind. Real part: generated write/delete/rename/mkdir histories on a temp dir watched by a real AssetCache<FileSystem>; after each step (sentinel file touched last) every directory handle equals the disk and a two-extension asset equals a fresh load; in half of them the very first activity under the freshly built watcher is a single-notification operation (create an empty file / delete), followed by a watcher built with the public FsWatcherBuilder on a root reached through a symbolic link, whose events are read back through the hook channel. \
          non-trivial = a probe on the root or a root-level entry, a rename/remove kind, a '..' spelling, several roots, or a real history; distinct = different canonical JSON"
             .into()
     }
@@ -814,6 +853,8 @@ impl Prop for C12 {
             real_ran = self.run_real(&c, &base, &mut out);
             if !real_ran {
                 out.excluded += 1;
+            } else if !out.failed() && c.first_probe.is_some() {
+                linked_root(&base, &mut out);
             }
         }
         let _ = std::fs::remove_dir_all(&base);
